@@ -39,6 +39,8 @@ if not ok:
 res = {}
 assert subprocess.run("git -C /repo status --porcelain -- src", shell=True, capture_output=True, text=True).stdout.strip() == ""
 subprocess.run(f"git -C /repo apply {patch}", shell=True, check=True)
+evsave = subprocess.run("mktemp -d", shell=True, capture_output=True, text=True).stdout.strip()
+subprocess.run(f"cp -a /verif/evidence/. {evsave}/", shell=True, check=True)  # evidence written under a seeded change must not survive
 try:
     for c in checks:
         p = subprocess.run(f"cd /verif && ./check {c} --tier quick", shell=True, capture_output=True, text=True, timeout=3000)
@@ -46,6 +48,7 @@ try:
         res[c] = {"exit": p.returncode, "violation_lines": [l for l in lines if l.startswith("VIOLATION")][:3], "summary": lines[-1:] }
 finally:
     subprocess.run("git -C /repo checkout -- .", shell=True, check=True)
+    subprocess.run(f"cp -a {evsave}/. /verif/evidence/ && rm -rf {evsave}", shell=True, check=True)
 print(json.dumps(res, indent=1))
 d = f"/verif/seeded/{prop}-{n}"
 os.makedirs(d, exist_ok=True)
